@@ -652,6 +652,11 @@ class Vector():
 
 		updates = []  # list of (idx, new_value)
 
+		# an untyped empty vector (Vector([])) addresses nothing, as in v[Vector([])]:
+		# handled like the empty index list
+		if isinstance(key, Vector) and key.schema() is None and len(key) == 0:
+			key = ()
+
 		# =====================================================================
 		# CASE 1 — Boolean mask (fast-path)
 		# =====================================================================
